@@ -231,13 +231,234 @@ fn run_huge_tree(rep: &mut Rep, n: usize, seed: u64, extra: usize) {
     rep.nontrivial();
 }
 
+/// very long, very sparse inputs: a handful of occurrences spread over more than 2^13 superblocks /
+/// 2^24 positions (two consecutive select samples / hints far apart). Explicit occurrence list = oracle.
+fn sparse_positions(n: usize, seed: u64) -> Vec<usize> {
+    let mut rng = Rng::new(seed);
+    let mut v: Vec<usize> = vec![7, 100_020, n - 5];
+    let mut p = 200_000usize;
+    while p + 10 < n {
+        // not on the first position of a 4096-block, mostly in its first part
+        v.push(p - p % 4096 + 1 + rng.usize_below(3000));
+        p += 90_000 + rng.usize_below(40_000);
+    }
+    v.sort_unstable();
+    v.dedup();
+    v.retain(|&x| x < n);
+    v
+}
+
+fn run_sparse_quad<Q: crate::adapters::QuadApi + FromIterator<u8>>(rep: &mut Rep, n: usize, seed: u64) {
+    let occ3 = sparse_positions(n, seed);
+    // symbol 3 at the sparse positions, symbol 1 twice, everything else 0
+    let occ1 = [n / 3, n / 3 + 1];
+    let mut it3 = occ3.iter().copied().peekable();
+    let q: Q = (0..n)
+        .map(|i| {
+            if it3.peek() == Some(&i) {
+                it3.next();
+                3u8
+            } else if i == occ1[0] || i == occ1[1] {
+                1
+            } else {
+                0
+            }
+        })
+        .collect();
+    rep.tick("build");
+    chk!(rep, "occs", 3, Exp::Is(Some(occ3.len())), q.occs_(3));
+    for (k, &p) in occ3.iter().enumerate() {
+        chk!(rep, "select", (3, k), Exp::Is(Some(p)), q.select_(3, k));
+        chk!(rep, "rank", (3, p), Exp::Is(Some(k)), q.rank_(3, p));
+        chk!(rep, "rank", (3, p + 1), Exp::Is(Some(k + 1)), q.rank_(3, p + 1));
+        chk!(rep, "get", p, Exp::Is(Some(3)), q.get_(p));
+    }
+    chk!(rep, "select", (3, occ3.len()), Exp::Is(None), q.select_(3, occ3.len()));
+    chk!(rep, "select", (1, 0), Exp::Is(Some(occ1[0])), q.select_(1, 0));
+    chk!(rep, "select", (1, 1), Exp::Is(Some(occ1[1])), q.select_(1, 1));
+    chk!(rep, "select", (1, 2), Exp::Is(None), q.select_(1, 2));
+    chk!(rep, "select", (2, 0), Exp::Is(None), q.select_(2, 0));
+    // symbol 0: everything else
+    let zeros_before = |i: usize| i - occ3.partition_point(|&p| p < i) - occ1.iter().filter(|&&p| p < i).count();
+    for &i in &[1usize, n / 2, n - 1, n] {
+        chk!(rep, "rank", (0, i), Exp::Is(Some(zeros_before(i))), q.rank_(0, i));
+    }
+    let z = zeros_before(n);
+    chk!(rep, "select", (0, z - 1), Exp::Pred("a position < n", Box::new(move |r: &Option<usize>| matches!(r, Some(p) if *p < n))), q.select_(0, z - 1));
+    chk!(rep, "select", (0, z), Exp::Is(None), q.select_(0, z));
+    rep.gate_max("sparse_huge_n", n as u64);
+    rep.nontrivial();
+}
+
+fn run_sparse_bits(rep: &mut Rep, which: &'static str, n: usize, seed: u64, complement: bool) {
+    let occ = sparse_positions(n, seed);
+    let mut it = occ.iter().copied().peekable();
+    let bv: BitVector = (0..n)
+        .map(|i| {
+            let hit = if it.peek() == Some(&i) {
+                it.next();
+                true
+            } else {
+                false
+            };
+            hit != complement
+        })
+        .collect();
+    rep.tick("build");
+    macro_rules! go {
+        ($s:expr, $has_rank:expr) => {{
+            let s = $s;
+            for (k, &p) in occ.iter().enumerate() {
+                if complement {
+                    chk!(rep, "select0", (which, k), Exp::Is(Some(p)), s.select0(k));
+                } else {
+                    chk!(rep, "select1", (which, k), Exp::Is(Some(p)), s.select1(k));
+                }
+            }
+            if complement {
+                chk!(rep, "select0", (which, occ.len()), Exp::Is(None), s.select0(occ.len()));
+                chk!(rep, "select1", (which, n - occ.len() - 1), Exp::Pred("a position < n", Box::new(move |r: &Option<usize>| matches!(r, Some(p) if *p < n))), s.select1(n - occ.len() - 1));
+                chk!(rep, "select1", (which, n - occ.len()), Exp::Is(None), s.select1(n - occ.len()));
+            } else {
+                chk!(rep, "select1", (which, occ.len()), Exp::Is(None), s.select1(occ.len()));
+                chk!(rep, "select0", (which, n - occ.len() - 1), Exp::Pred("a position < n", Box::new(move |r: &Option<usize>| matches!(r, Some(p) if *p < n))), s.select0(n - occ.len() - 1));
+                chk!(rep, "select0", (which, n - occ.len()), Exp::Is(None), s.select0(n - occ.len()));
+            }
+        }};
+    }
+    match which {
+        "RSWide" => {
+            let s = qwt::RSWide::new(bv);
+            for (k, &p) in occ.iter().enumerate().step_by(7) {
+                let e = if complement { p - k } else { k };
+                chk!(rep, "rank1", (which, p), Exp::Is(Some(e)), s.rank1(p));
+            }
+            go!(s, true)
+        }
+        "RSNarrow" => {
+            let s = qwt::RSNarrow::new(bv);
+            for (k, &p) in occ.iter().enumerate().step_by(7) {
+                let e = if complement { p - k } else { k };
+                chk!(rep, "rank1", (which, p), Exp::Is(Some(e)), s.rank1(p));
+            }
+            go!(s, true)
+        }
+        _ => go!(DArray::<true>::new(bv), false),
+    }
+    rep.gate_max("sparse_huge_n", n as u64);
+    rep.nontrivial();
+}
+
+/// more than 2^32 zeros (a 32-bit counter anywhere in the construction or in the select hints wraps):
+/// 4.4e9 bits, ones at ~1000 explicit positions. Thorough tier only (550 MB, ~30 s).
+fn run_giant_bits(rep: &mut Rep, which: &'static str, seed: u64) {
+    let n: usize = (1usize << 32) + (1 << 27) + 333;
+    let mut rng = Rng::new(seed);
+    let mut occ: Vec<usize> = vec![5, (1 << 32) - 1, 1 << 32, (1 << 32) + 1, n - 2];
+    let mut p = 1usize << 20;
+    while p < n - 10 {
+        occ.push(p + rng.usize_below(1 << 19));
+        p += (1 << 22) + rng.usize_below(1 << 20);
+    }
+    occ.sort_unstable();
+    occ.dedup();
+    let mut it = occ.iter().copied().peekable();
+    let bv: BitVector = (0..n)
+        .map(|i| {
+            if it.peek() == Some(&i) {
+                it.next();
+                true
+            } else {
+                false
+            }
+        })
+        .collect();
+    rep.tick("build");
+    // position of the k-th zero
+    let zero_at = |k: usize| -> usize {
+        let mut p = k;
+        loop {
+            let ones = occ.partition_point(|&o| o <= p);
+            if p - ones == k && !occ.binary_search(&p).is_ok() {
+                return p;
+            }
+            p = k + ones + usize::from(occ.binary_search(&(k + ones)).is_ok());
+        }
+    };
+    let n0 = n - occ.len();
+    let ks = [0usize, 1, 4, 5, 6, 1 << 20, (1 << 31) - 1, 1 << 31, (1 << 32) - 8200, (1 << 32) - 1024, (1 << 32) - 2, (1 << 32) - 1, 1 << 32, (1 << 32) + 1, (1 << 32) + 1023, (1 << 32) + 1024, (1 << 32) + 8192, (1 << 32) + (1 << 26), n0 - 1];
+    macro_rules! go {
+        ($s:expr) => {{
+            let s = $s;
+            chk!(rep, "n_ones", which, Exp::Is(occ.len()), s.n_ones());
+            chk!(rep, "n_zeros", which, Exp::Is(n0), s.n_zeros());
+            for &k in &ks {
+                chk!(rep, "select0", (which, k), Exp::Is(Some(zero_at(k))), s.select0(k));
+            }
+            chk!(rep, "select0", (which, n0), Exp::Is(None), s.select0(n0));
+            for (k, &p) in occ.iter().enumerate() {
+                chk!(rep, "select1", (which, k), Exp::Is(Some(p)), s.select1(k));
+                if k % 16 == 0 {
+                    chk!(rep, "rank1", (which, p), Exp::Is(Some(k)), s.rank1(p));
+                    chk!(rep, "rank0", (which, p), Exp::Is(Some(p - k)), s.rank0(p));
+                }
+            }
+            chk!(rep, "rank1", (which, n), Exp::Is(Some(occ.len())), s.rank1(n));
+            chk!(rep, "rank1", (which, n + 1), Exp::Is(None), s.rank1(n + 1));
+        }};
+    }
+    if which == "RSWide" {
+        go!(qwt::RSWide::new(bv))
+    } else {
+        go!(qwt::RSNarrow::new(bv))
+    }
+    rep.gate_max("giant_n", n as u64);
+    rep.nontrivial();
+}
+
 /// scale cases of one property ("C01", "C05", "C06", "C07"); empty for the other lanes than `rel`
 pub fn huge_cases(cfg: &Cfg, prop: &str) -> Vec<Case> {
     let mut out = Vec::new();
-    if cfg.scale != Scale::Full || cfg.lane != "rel" {
+    if cfg.rep > 1 {
+        // scale cases are not replicated by --reps beyond one extra seed
         return out;
     }
     let mut rng = Rng::derive(cfg.seed, "huge", 0);
+    // very long and very sparse inputs also run with debug assertions (lanes rel and dbg)
+    if cfg.lane == "rel" || cfg.lane == "dbg" {
+        let n = (1usize << 25) + (1 << 21) + 4321;
+        match prop {
+            "C05" => {
+                for ty in ["RSQVector256", "RSQVector512"] {
+                    let seed = rng.u64();
+                    let desc = J::obj().set("pattern", "symbol 3 at ~300 explicit positions over 3.5e7 symbols, symbol 1 twice, rest 0").set("n", n).set("seed", seed);
+                    out.push(Case::new(ty, format!("{}|huge-sparse", ty), desc, n as u64 / 4, move |rep: &mut Rep| {
+                        if ty == "RSQVector256" {
+                            run_sparse_quad::<qwt::RSQVector256>(rep, n, seed)
+                        } else {
+                            run_sparse_quad::<qwt::RSQVector512>(rep, n, seed)
+                        }
+                    }));
+                }
+            }
+            "C06" | "C07" => {
+                let which: &[&'static str] = if prop == "C06" { &["RSWide", "RSNarrow"] } else { &["DArray<true>"] };
+                for &w in which {
+                    for complement in [false, true] {
+                        let seed = rng.u64();
+                        let desc = J::obj().set("pattern", "~300 explicit positions over 3.5e7 bits").set("n", n).set("seed", seed).set("complement", complement);
+                        out.push(Case::new(w, format!("{}|huge-sparse|c{}", w, complement as u8), desc, n as u64 / 4, move |rep: &mut Rep| {
+                            run_sparse_bits(rep, w, n, seed, complement)
+                        }));
+                    }
+                }
+            }
+            _ => {}
+        }
+    }
+    if cfg.scale != Scale::Full || cfg.lane != "rel" {
+        return out;
+    }
     let extra = if cfg.tier == Tier::Thorough { 4000 } else { 300 };
     match prop {
         "C05" => {
@@ -254,6 +475,13 @@ pub fn huge_cases(cfg: &Cfg, prop: &str) -> Vec<Case> {
             }
         }
         "C06" | "C07" => {
+            if prop == "C06" && cfg.tier == Tier::Thorough && cfg.rep == 0 {
+                for w in ["RSNarrow", "RSWide"] {
+                    let seed = rng.u64();
+                    let desc = J::obj().set("pattern", "4.4e9 bits, ~1000 ones at explicit positions: more than 2^32 zeros").set("seed", seed);
+                    out.push(Case::new(w, format!("{}|giant", w), desc, 1u64 << 34, move |rep: &mut Rep| run_giant_bits(rep, w, seed)));
+                }
+            }
             let which: &[&'static str] = if prop == "C06" { &["RSWide", "RSNarrow"] } else { &["DArray<true>"] };
             for &w in which {
                 let n = (4096usize << 16) + (1 << 25) + 12_345; // > 2^16 superblocks of 4096 bits, > 2^28 bits
